@@ -21,6 +21,10 @@ A property module `harness/props/Cxx.py` provides:
                         property on this case (independent of the Lean model)
     nontrivial(case)  : hashable key for "distinct and non-trivial", or None if trivial
     search_cases(rng, tier) : optional, larger stream for the failing-input search
+    run_obligations(tier) : optional, laws that the theorems assume of an abstract parameter of
+                        the model (e.g. the label decoder `puny`), evaluated on the REAL function
+                        over an enumerated class on every run; returns a list of messages, each
+                        reported as a broken obligation `law` (empty list = they hold)
     TRUSTED / ASSUMPTIONS / LEVEL_NOTE : strings for the evidence
 
 `run_check` = regenerate tables -> lake build + axiom audit -> correspondence (model vs
@@ -545,6 +549,18 @@ def run_check(pid, tier="quick", seed=0, replay=None):
         if not recheck["ok"]:
             broken.append(("kernel-recheck", "leanchecker rejects a compiled module: %s" % recheck["tail"][-600:]))
 
+    # 2b. laws assumed of abstract parameters of the model, on the real functions
+    law_report = None
+    ro = getattr(prop, "run_obligations", None)
+    if ro is not None:
+        try:
+            msgs = list(ro(tier))
+        except Exception as e:  # noqa
+            msgs = ["run_obligations crashed: %s: %s" % (type(e).__name__, e)]
+        law_report = {"checked": getattr(prop, "RUN_OBLIGATIONS", "see run_obligations"), "failures": len(msgs)}
+        for m in msgs:
+            broken.append(("law", m))
+
     n_obl = len(prop.THEOREMS) + len(getattr(prop, "TABLE_OBLIGATIONS", []))
     n_dis = sum(1 for r in audit_res.values() if r["present"] and r["ok"])
 
@@ -675,6 +691,7 @@ def run_check(pid, tier="quick", seed=0, replay=None):
             "kernel_recheck": recheck
             or "quick tier: not run (thorough tier replays the property module and its project imports through leanchecker)",
             "table_obligations": list(getattr(prop, "TABLE_OBLIGATIONS", [])),
+            "run_obligations": law_report or "none declared",
             "translator_digest": tr.get("digest"),
             "translator_changed": tr.get("changed", []),
             "evaluations": tot["n"],
